@@ -254,10 +254,13 @@ N = {"quick": 20000, "thorough": 600000}
 
 
 def plan(tier):
-    return [("unit", 16)]
+    return [("unit", 16)] + ([("fuzz", 16)] if tier == "thorough" else [])
 
 
 def run_part(res, part, tier, seed, shard, nshards):
+    if part == "fuzz":
+        # coverage-guided campaign (atheris/libFuzzer) on the same Hypothesis test, empty corpus, fixed -runs and -seed
+        return engine.run_fuzz_part(res, "C11", "fuzz", 40000, seed, shard)
     engine.hyp_sweep(res, cases(), body, runlevel.shard_count(N[tier], shard, nshards), seed * 1000 + shard)
 
 
@@ -272,3 +275,7 @@ def replay(part, case):
 
 def floors(tier):
     return {"nontrivial": 2000, "mixed-log-linear": 500}
+
+
+def fuzz_entry(entry):
+    return cases(), body
